@@ -238,7 +238,7 @@ void World::isr(int slot) {
 void World::process(int slot) { cur = slot; COTmrProcess(&s[slot].node->Tmr); }
 void World::tick(int slot, uint64_t n) {
     cur = slot; Slot &S = s[slot];
-    int budget = 3000;   // a tick operation ends early after 3000 expiries (deterministic; keeps huge jumps cheap)
+    int budget = 50000;   // a tick operation ends early after 50000 expiries (deterministic; keeps huge jumps cheap)
     while (n > 0 && budget-- > 0) {
         uint32_t c = S.counter;
         if (c == 0) { S.now += n; break; }
